@@ -931,4 +931,526 @@ theorem mainRun_final (data : List Char) (vm fm : Option (List Char → Bool)) (
     · exact scopeLoop_stmts _ _ _ vm fm _ _ r' hr (by simp)
   · cases h
 
+/-! ## the fuel `mainRun` uses is enough: the scanner terminates -/
+
+theorem findChar_spec (c : Char) (b : Buf) (pos r : Nat) (h : findChar c b pos = some r) : b[r]? = some c := by
+  fun_induction findChar c b pos with
+  | case1 pos hlt hc => simp at h; subst h; simp [hlt, hc]
+  | case2 pos hlt hc ih => exact ih h
+  | case3 pos hge => simp at h
+
+theorem findSub_le (w : List Char) (b : Buf) (pos r : Nat) (h : findSub w b pos = some r) : r ≤ b.length := by
+  fun_induction findSub w b pos with
+  | case1 pos hlt hs => simp at h; omega
+  | case2 pos hlt hs ih => exact ih h
+  | case3 pos hge hw => simp at h; omega
+  | case4 pos hge hw => simp at h
+
+/-- the buffer ends with a sentinel that is not `#` (for `main_run`: the NUL) -/
+def Sent (b : Buf) : Prop := ∃ s, b[b.length - 1]? = some s ∧ s ≠ '#'
+
+/-- with the sentinel in place a comment walk always makes progress -/
+theorem walkPound_gt (b : Buf) (pos : Nat) (e : Option Char) (r : Nat) (hc : b[pos]? = some '#') (hs : Sent b)
+    (h : walkPound b pos e = .ok r) : pos < r := by
+  have hlt := getElem?_lt hc
+  obtain ⟨s, hs1, hs2⟩ := hs
+  have hlast : pos < b.length - 1 := by
+    have : pos ≠ b.length - 1 := by
+      intro heq; rw [heq, hs1] at hc; simp only [Option.some.injEq] at hc; exact hs2 hc
+    omega
+  have hfind : ∀ c i, c ≠ '#' → findChar c b pos = some i → pos < i := by
+    intro c i hne hf
+    have h1 := (findChar_ge c b pos i hf).1
+    have h2 := findChar_spec c b pos i hf
+    have : i ≠ pos := by
+      intro heq; rw [heq, hc] at h2; simp only [Option.some.injEq] at h2; exact hne h2.symm
+    omega
+  unfold walkPound at h
+  simp only [] at h
+  generalize hrest : (if e = some '`' then
+      match findChar '\n' b pos, findChar '`' b pos with
+      | none, some i2 => i2
+      | some i, some i2 => min i i2
+      | some i, none => i
+      | none, none => b.length - 1
+    else (findChar '\n' b pos).getD (b.length - 1)) = rest at h
+  have hgt : pos < rest := by
+    rw [← hrest]
+    split
+    · split
+      · rename_i h2; exact hfind _ _ (by decide) h2
+      · rename_i h1 h2
+        exact Nat.lt_min.2 ⟨hfind _ _ (by decide) h1, hfind _ _ (by decide) h2⟩
+      · rename_i h1 _; exact hfind _ _ (by decide) h1
+      · exact hlast
+    · cases hf : findChar '\n' b pos with
+      | none => simp only [Option.getD_none]; exact hlast
+      | some r => simp only [Option.getD_some]; exact hfind _ _ (by decide) hf
+  split at h
+  · simp only [Except.ok.injEq] at h; omega
+  · split at h
+    · simp at h
+    · split at h <;> simp only [Except.ok.injEq] at h <;> omega
+
+theorem walkPound_nofuel (b : Buf) (pos : Nat) (e : Option Char) : walkPound b pos e ≠ .error .fuel := by
+  unfold walkPound
+  simp only []
+  split
+  · simp
+  · split
+    · simp
+    · split <;> simp
+
+theorem nf_bind {α β : Type} {x : Except Err α} {f : α → Except Err β} (hx : x ≠ .error .fuel)
+    (hf : ∀ a, x = .ok a → f a ≠ .error .fuel) : (x >>= f) ≠ .error .fuel := by
+  cases x with
+  | error e =>
+    intro h
+    have : e = .fuel := by cases h; rfl
+    exact hx (by rw [this])
+  | ok a => exact hf a rfl
+
+theorem hereSearch_nofuel (w : List Char) (b : Buf) (k : Nat) : ∀ from_, 1 ≤ k → b.length + 2 ≤ k + from_ →
+    hereSearch w b from_ k ≠ .error .fuel := by
+  induction k with
+  | zero => intro from_ h; omega
+  | succ k ih =>
+    intro from_ _ hk
+    rw [hereSearch]
+    split
+    · simp
+    · rename_i e hf
+      have h1 := findSub_ge w b from_ e hf
+      have h2 := findSub_le w b from_ e hf
+      split
+      · simp
+      · rename_i c _
+        by_cases hc : ((if w.length ≠ 0 then oneOf ";\n\r})" c else oneOf "\n\r" c) = true ∧ lineStartBefore b e = true)
+        · rw [if_pos hc]; simp
+        · rw [if_neg hc]
+          apply ih
+          · omega
+          · have : 1 ≤ max w.length 1 := Nat.le_max_right _ _
+            omega
+
+/-- `K * (distance to the end) + rank ≤ fuel` -/
+def Enough (n : Nat) (b : Buf) (pos rank : Nat) : Prop := 6 * (b.length + 1 - pos) + rank ≤ n
+
+/-- no walker runs out of fuel when it has `Enough` -/
+structure NF (n : Nat) (b : Buf) : Prop where
+  here : ∀ pos, Enough n b pos 1 → walkHere n b pos ≠ .error .fuel
+  cloop : ∀ st pos e l, Enough n b pos 1 → walkComplexLoop n b st pos e l ≠ .error .fuel
+  complex : ∀ pos e l, Enough n b pos 2 → walkComplex n b pos e l ≠ .error .fuel
+  esc : ∀ pos e, Enough n b pos 1 → walkEscaped n b pos e ≠ .error .fuel
+  dname : ∀ pos e, Enough n b pos 1 → dollarName n b pos e ≠ .error .fuel
+  dbrace : ∀ pos e, Enough n b pos 1 → dollarBrace n b pos e ≠ .error .fuel
+  dollar : ∀ pos e dq, Enough n b pos 2 → walkDollar n b pos e dq ≠ .error .fuel
+  assign : ∀ pos e, Enough n b pos 3 → assignLoop n b pos e ≠ .error .fuel
+  sloop : ∀ emit vm fm e s, Enough n b s.pos 4 → scopeLoop n emit b vm fm e s ≠ .error .fuel
+  scope : ∀ emit pos vm fm e, Enough n b pos 5 → processScope n emit b pos vm fm e ≠ .error .fuel
+
+theorem nf_zero (b : Buf) : NF 0 b := by
+  refine ⟨?_, ?_, ?_, ?_, ?_, ?_, ?_, ?_, ?_, ?_⟩ <;> intros <;> rename_i h <;> unfold Enough at h <;> omega
+
+theorem esc_nf (n : Nat) (b : Buf) (hs : Sent b) (ih : NF n b) : ∀ pos e, Enough (n + 1) b pos 1 →
+    walkEscaped (n + 1) b pos e ≠ .error .fuel := by
+  intro pos e hen
+  have M := mono n
+  unfold Enough at hen
+  rw [walkEscaped]
+  split
+  · simp
+  · rename_i ch hc
+    have hlt := getElem?_lt hc
+    have en1 : ∀ p, pos + 1 ≤ p → Enough n b p 1 := fun p hp => by unfold Enough; omega
+    have en2 : ∀ p, pos + 1 ≤ p → Enough n b p 2 := fun p hp => by unfold Enough; omega
+    split
+    · simp
+    · split
+      · exact ih.esc _ _ (en1 _ (by omega))
+      · split
+        · split
+          · apply nf_bind (ih.esc _ _ (en1 _ (by omega)))
+            intro p hp
+            have := M.esc _ _ _ _ hp
+            exact ih.esc _ _ (en1 _ (by omega))
+          · exact ih.esc _ _ (en1 _ (by omega))
+        · split
+          · split
+            · apply nf_bind (ih.esc _ _ (en1 _ (by omega)))
+              intro p hp
+              have := M.esc _ _ _ _ hp
+              exact ih.esc _ _ (en1 _ (by omega))
+            · exact ih.esc _ _ (en1 _ (by omega))
+          · split
+            · apply nf_bind (ih.esc _ _ (en1 _ (by omega)))
+              intro p hp
+              have := M.esc _ _ _ _ hp
+              exact ih.esc _ _ (en1 _ (by omega))
+            · split
+              · have := walkNoParsing_succ b pos '\'' hlt
+                exact ih.esc _ _ (en1 _ (by omega))
+              · split
+                · apply nf_bind (ih.dollar _ _ _ (en2 _ (by omega)))
+                  intro p hp
+                  have := M.dollar _ _ _ _ _ hp
+                  exact ih.esc _ _ (en1 _ (by omega))
+                · split
+                  · rename_i hpound
+                    apply nf_bind (walkPound_nofuel _ _ _)
+                    intro p hp
+                    have := walkPound_gt b pos _ p (by rw [hc, hpound.1]) hs hp
+                    exact ih.esc _ _ (en1 _ (by omega))
+                  · exact ih.esc _ _ (en1 _ (by omega))
+
+theorem dname_nf (n : Nat) (b : Buf) (ih : NF n b) : ∀ pos e, Enough (n + 1) b pos 1 →
+    dollarName (n + 1) b pos e ≠ .error .fuel := by
+  intro pos e hen
+  unfold Enough at hen
+  rw [dollarName]
+  split
+  · simp
+  · rename_i c hc
+    have hlt := getElem?_lt hc
+    split
+    · simp
+    · split
+      · simp
+      · split
+        · exact ih.dollar _ _ _ (by unfold Enough; omega)
+        · split
+          · simp
+          · exact ih.dname _ _ (by unfold Enough; omega)
+
+theorem dbrace_nf (n : Nat) (b : Buf) (ih : NF n b) : ∀ pos e, Enough (n + 1) b pos 1 →
+    dollarBrace (n + 1) b pos e ≠ .error .fuel := by
+  intro pos e hen
+  have M := mono n
+  unfold Enough at hen
+  rw [dollarBrace]
+  split
+  · simp
+  · rename_i c hc
+    have hlt := getElem?_lt hc
+    split
+    · simp
+    · split
+      · apply nf_bind (ih.dollar _ _ _ (by unfold Enough; omega))
+        intro p hp
+        have := M.dollar _ _ _ _ _ hp
+        exact ih.dbrace _ _ (by unfold Enough; omega)
+      · exact ih.dbrace _ _ (by unfold Enough; omega)
+
+theorem dollar_nf (n : Nat) (b : Buf) (ih : NF n b) : ∀ pos e dq, Enough (n + 1) b pos 2 →
+    walkDollar (n + 1) b pos e dq ≠ .error .fuel := by
+  intro pos e dq hen
+  unfold Enough at hen
+  rw [walkDollar]
+  split
+  · simp
+  · rename_i c hc
+    have hlt := getElem?_lt hc
+    split
+    · apply nf_bind (ih.scope _ _ _ _ _ (by unfold Enough; omega))
+      intro r _; simp [pure, Except.pure]
+    · split
+      · simp
+      · split
+        · split
+          · simp
+          · exact ih.dname _ _ (by unfold Enough; omega)
+        · exact ih.dbrace _ _ (by unfold Enough; omega)
+
+theorem here_tail_nf (b : Buf) (ws eh : Nat) :
+    (if eh + 1 ≥ b.length then (pure (eh + 1) : Except Err Nat) else do
+        let s ← hereSearch (slice b ws eh) b (eh + 1) (b.length + 1)
+        match s with
+          | none => pure b.length
+          | some e => pure (e + (slice b ws eh).length)) ≠ .error .fuel := by
+  split
+  · simp [pure, Except.pure]
+  · apply nf_bind (hereSearch_nofuel _ b _ _ (by omega) (by omega))
+    intro s _
+    split <;> simp [pure, Except.pure]
+
+theorem here_nf (n : Nat) (b : Buf) (ih : NF n b) : ∀ pos, Enough (n + 1) b pos 1 →
+    walkHere (n + 1) b pos ≠ .error .fuel := by
+  intro pos hen
+  unfold Enough at hen
+  rw [walkHere]
+  simp only []
+  split
+  · simp
+  · rename_i c hc
+    have hlt := getElem?_lt hc
+    split
+    · simp
+    · have hsk := skipWhileLt_ge (fun c => isSpace c || c = '-') b (pos + 1)
+      generalize skipWhileLt (fun c => isSpace c || c = '-') b (pos + 1) = p at hsk
+      split
+      · simp
+      · rename_i q hq
+        have hltp := getElem?_lt hq
+        split
+        · simp only [pure_bind]
+          exact here_tail_nf b _ _
+        · apply nf_bind (ih.complex _ _ _ (by unfold Enough; omega))
+          intro e _
+          simp only [pure_bind]
+          exact here_tail_nf b _ _
+
+theorem isSpace_space : isSpace ' ' = true := by decide
+
+/-- a word walk that starts on a non-blank character makes progress -/
+theorem complex_space_progress (n : Nat) (b : Buf) (pos r : Nat) (ch : Char) (hc : b[pos]? = some ch)
+    (hsp : isSpace ch = false) (hs : Sent b) (h : walkComplex n b pos ' ' .space = .ok r) : pos < r := by
+  have hlt := getElem?_lt hc
+  cases n with
+  | zero => rw [walkComplex] at h; cases h
+  | succ m =>
+    rw [walkComplex] at h
+    cases m with
+    | zero => rw [walkComplexLoop] at h; cases h
+    | succ k =>
+      have M := mono k
+      rw [walkComplexLoop] at h
+      rw [hc] at h
+      simp only [] at h
+      have hne : ch ≠ ' ' := by intro he; rw [he, isSpace_space] at hsp; cases hsp
+      simp only [hne, if_false, hsp, Bool.false_eq_true, and_false, or_false, reduceCtorEq, false_and] at h
+      split at h
+      · have := M.cloop _ _ _ _ _ _ h; omega
+      · split at h
+        · have := M.cloop _ _ _ _ _ _ h; omega
+        · split at h
+          · rename_i hpound
+            simp only [if_true] at h
+            obtain ⟨p, hp, h⟩ := bind_ok h
+            have := walkPound_gt b pos none p (by rw [hc, hpound]) hs hp
+            have := M.cloop _ _ _ _ _ _ h; omega
+          · split at h
+            · obtain ⟨p, hp, h⟩ := bind_ok h
+              have := M.dollar _ _ _ _ _ hp; have := M.cloop _ _ _ _ _ _ h; omega
+            · split at h
+              · obtain ⟨p, hp, h⟩ := bind_ok h
+                have := M.esc _ _ _ _ hp; have := M.cloop _ _ _ _ _ _ h; omega
+              · split at h
+                · obtain ⟨p, hp, h⟩ := bind_ok h
+                  have := M.esc _ _ _ _ hp; have := M.cloop _ _ _ _ _ _ h; omega
+                · split at h
+                  · have := walkNoParsing_succ b pos '\'' hlt
+                    have := M.cloop _ _ _ _ _ _ h; omega
+                  · have := M.cloop _ _ _ _ _ _ h; omega
+
+theorem cloop_nf (n : Nat) (b : Buf) (hs : Sent b) (ih : NF n b) : ∀ st pos e l, Enough (n + 1) b pos 1 →
+    walkComplexLoop (n + 1) b st pos e l ≠ .error .fuel := by
+  intro st pos e l hen
+  have M := mono n
+  unfold Enough at hen
+  rw [walkComplexLoop]
+  split
+  · simp
+  · rename_i ch hc
+    have hlt := getElem?_lt hc
+    have en1 : ∀ p, pos + 1 ≤ p → Enough n b p 1 := fun p hp => by unfold Enough; omega
+    have en2 : ∀ p, pos + 1 ≤ p → Enough n b p 2 := fun p hp => by unfold Enough; omega
+    split
+    · split
+      · simp
+      · split
+        · simp
+        · split
+          · simp
+          · split
+            · simp
+            · exact ih.cloop _ _ _ _ (en1 _ (by omega))
+    · split
+      · simp
+      · split
+        · exact ih.cloop _ _ _ _ (en1 _ (by omega))
+        · split
+          · split
+            · apply nf_bind (ih.here _ (en1 _ (by omega)))
+              intro p hp
+              have := M.here _ _ _ hp
+              exact ih.cloop _ _ _ _ (en1 _ (by omega))
+            · exact ih.cloop _ _ _ _ (en1 _ (by omega))
+          · split
+            · rename_i hpound
+              simp only []
+              split
+              · rename_i e' heq
+                simp only [ne_eq, Except.error.injEq]
+                intro hfu
+                subst hfu
+                split at heq
+                · cases heq
+                · split at heq <;> cases heq
+              · apply nf_bind (walkPound_nofuel _ _ _)
+                intro p hp
+                have := walkPound_gt b pos none p (by rw [hc, hpound]) hs hp
+                exact ih.cloop _ _ _ _ (en1 _ (by omega))
+              · exact ih.cloop _ _ _ _ (en1 _ (by omega))
+            · split
+              · apply nf_bind (ih.dollar _ _ _ (en2 _ (by omega)))
+                intro p hp
+                have := M.dollar _ _ _ _ _ hp
+                exact ih.cloop _ _ _ _ (en1 _ (by omega))
+              · split
+                · apply nf_bind (ih.esc _ _ (en1 _ (by omega)))
+                  intro p hp
+                  have := M.esc _ _ _ _ hp
+                  exact ih.cloop _ _ _ _ (en1 _ (by omega))
+                · split
+                  · apply nf_bind (ih.esc _ _ (en1 _ (by omega)))
+                    intro p hp
+                    have := M.esc _ _ _ _ hp
+                    exact ih.cloop _ _ _ _ (en1 _ (by omega))
+                  · split
+                    · apply nf_bind (ih.esc _ _ (en1 _ (by omega)))
+                      intro p hp
+                      have := M.esc _ _ _ _ hp
+                      exact ih.cloop _ _ _ _ (en1 _ (by omega))
+                    · split
+                      · have := walkNoParsing_succ b pos '\'' hlt
+                        exact ih.cloop _ _ _ _ (en1 _ (by omega))
+                      · exact ih.cloop _ _ _ _ (en1 _ (by omega))
+
+theorem complex_nf (n : Nat) (b : Buf) (ih : NF n b) : ∀ pos e l, Enough (n + 1) b pos 2 →
+    walkComplex (n + 1) b pos e l ≠ .error .fuel := by
+  intro pos e l hen
+  rw [walkComplex]
+  exact ih.cloop _ _ _ _ (by unfold Enough at *; omega)
+
+theorem assign_nf (n : Nat) (b : Buf) (hs : Sent b) (ih : NF n b) : ∀ pos e, Enough (n + 1) b pos 3 →
+    assignLoop (n + 1) b pos e ≠ .error .fuel := by
+  intro pos e hen
+  have M := mono n
+  unfold Enough at hen
+  rw [assignLoop]
+  split
+  · simp
+  · rename_i c hc
+    have hlt := getElem?_lt hc
+    have en1 : ∀ p, pos + 1 ≤ p → Enough n b p 1 := fun p hp => by unfold Enough; omega
+    have en2 : ∀ p, pos + 1 ≤ p → Enough n b p 2 := fun p hp => by unfold Enough; omega
+    have en3 : ∀ p, pos + 1 ≤ p → Enough n b p 3 := fun p hp => by unfold Enough; omega
+    split
+    · simp
+    · rename_i hnsp
+      split
+      · have := walkNoParsing_succ b pos '\'' hlt
+        exact ih.assign _ _ (en3 _ (by omega))
+      · split
+        · apply nf_bind (ih.esc _ _ (en1 _ (by omega)))
+          intro p hp
+          have := M.esc _ _ _ _ hp
+          exact ih.assign _ _ (en3 _ (by omega))
+        · split
+          · apply nf_bind (ih.esc _ _ (en1 _ (by omega)))
+            intro p hp
+            have := M.esc _ _ _ _ hp
+            exact ih.assign _ _ (en3 _ (by omega))
+          · split
+            · split
+              · exact ih.assign _ _ (en3 _ (by omega))
+              · apply nf_bind (ih.dollar _ _ _ (en2 _ (by omega)))
+                intro p hp
+                have := M.dollar _ _ _ _ _ hp
+                exact ih.assign _ _ (en3 _ (by omega))
+            · apply nf_bind (ih.complex _ _ _ (by unfold Enough; omega))
+              intro p hp
+              have hsp : isSpace c = false := by
+                simp only [not_or] at hnsp
+                simpa using hnsp.1
+              have := complex_space_progress n b pos p c hc hsp hs hp
+              exact ih.assign _ _ (en3 _ (by omega))
+
+theorem sloop_nf (n : Nat) (b : Buf) (hs : Sent b) (ih : NF n b) : ∀ emit vm fm e s, Enough (n + 1) b s.pos 4 →
+    scopeLoop (n + 1) emit b vm fm e s ≠ .error .fuel := by
+  intro emit vm fm e s hen
+  have M := mono n
+  unfold Enough at hen
+  rw [scopeLoop]
+  split
+  · simp
+  · rename_i ch hc
+    have hlt := getElem?_lt hc
+    split
+    · simp
+    · rename_i hce
+      simp only []
+      have hpos := flushWindow_pos emit s
+      generalize flushWindow emit s = s' at hpos
+      rw [← hpos] at hen hc hlt
+      have en4 : ∀ p, s'.pos + 1 ≤ p → Enough n b p 4 := fun p hp => by unfold Enough; omega
+      split
+      · exact ih.sloop _ _ _ _ _ (en4 _ (by simp only []; omega))
+      · split
+        · rename_i hpound
+          apply nf_bind (walkPound_nofuel _ _ _)
+          intro p hp
+          have := walkPound_gt b s'.pos _ p (by rw [hc, hpound]) hs hp
+          exact ih.sloop _ _ _ _ _ (en4 _ (by simp only []; omega))
+        · split
+          · rename_i ns ne np hf
+            have h1 := isFunction_gt b s'.pos ns ne np hf
+            apply nf_bind (ih.scope _ _ _ _ _ (by unfold Enough; omega))
+            intro sr hsr
+            have := M.scope _ _ _ _ _ _ _ hsr
+            exact ih.sloop _ _ _ _ _ (en4 _ (by simp only []; omega))
+          · split
+            · apply nf_bind (ih.complex _ _ _ (by unfold Enough; omega))
+              intro p hp
+              have hge := M.complex _ _ _ _ _ hp
+              apply ih.sloop _ _ _ _ _ (en4 _ ?_)
+              simp only []
+              split
+              · omega
+              · rename_i hcond
+                have : p ≠ s'.pos := by
+                  intro heq
+                  apply hcond
+                  rw [heq]
+                  exact ⟨hlt, by rw [hc]; simpa using hce⟩
+                omega
+            · rename_i ns ne np hv
+              have hv' := isEnvvar_gt b s'.pos ns ne np hv
+              split
+              · simp
+              · apply nf_bind (ih.assign _ _ (by unfold Enough; omega))
+                intro p hp
+                have := M.assign _ _ _ _ hp
+                exact ih.sloop _ _ _ _ _ (en4 _ (by simp only []; omega))
+
+theorem scope_nf (n : Nat) (b : Buf) (ih : NF n b) : ∀ emit pos vm fm e, Enough (n + 1) b pos 5 →
+    processScope (n + 1) emit b pos vm fm e ≠ .error .fuel := by
+  intro emit pos vm fm e hen
+  rw [processScope]
+  exact ih.sloop _ _ _ _ _ (by unfold Enough at *; simp only []; omega)
+
+/-- with the sentinel in place no walker ever runs out of fuel when it starts with `Enough` -/
+theorem nf (b : Buf) (hs : Sent b) : ∀ n, NF n b := by
+  intro n
+  induction n with
+  | zero => exact nf_zero b
+  | succ n ih =>
+    exact ⟨here_nf n b ih, cloop_nf n b hs ih, complex_nf n b ih, esc_nf n b hs ih, dname_nf n b ih, dbrace_nf n b ih,
+      dollar_nf n b ih, assign_nf n b hs ih, sloop_nf n b hs ih, scope_nf n b ih⟩
+
+theorem mainRun_nofuel (data : List Char) (vm fm : Option (List Char → Bool)) :
+    mainRun data vm fm ≠ .error .fuel := by
+  unfold mainRun
+  simp only []
+  have hs : Sent (data ++ ['\x00']) := ⟨'\x00', by simp, by decide⟩
+  have := (nf (data ++ ['\x00']) hs (fuelFor (data ++ ['\x00']))).scope true 0 vm fm '\x00'
+    (by unfold Enough fuelFor; omega)
+  split
+  · simp
+  · rename_i e he
+    intro h
+    simp only [Except.error.injEq] at h
+    rw [h] at he
+    exact this he
+
 end Pkgcore.C34
